@@ -37,6 +37,18 @@ def step (_ : Unit) (line : String) : Unit × String :=
       let ids := ["C11", "C02", "C09", "C04"].filter fun p => fails.any (·.startsWith p)
       ((), model ++ " ||| " ++ (if fails.isEmpty then "ok" else "bad:" ++ ",".intercalate ids ++ ":" ++ "; ".intercalate fails))
     | _, _ => ((), "bad-op")
+  | ["lfq", n, ms] =>
+    match n.toNat?, ms.toNat? with
+    | some n, some _ =>
+      -- a log file that takes no data for a while gets every line once it does
+      let l := s!"[1:1-{n}]"
+      let model := s!"mem_out={l} mem_err={l} file_out={l} file_err={l}"
+      let fails := (if fieldOf impl "mem_out" != l then ["C11:stdout-lines-in-memory-log"] else []) ++
+        (if fieldOf impl "mem_err" != l then ["C11:stderr-lines-in-memory-log"] else []) ++
+        (if fieldOf impl "file_out" != l then ["C11:stdout-lines-in-log-file (the file took no data for a while)"] else []) ++
+        (if fieldOf impl "file_err" != l then ["C11:stderr-lines-in-log-file (the file took no data for a while)"] else [])
+      ((), model ++ " ||| " ++ (if fails.isEmpty then "ok" else "bad:C11:" ++ "; ".intercalate fails))
+    | _, _ => ((), "bad-op")
   | ["lfs", n, b] =>
     match n.toNat?, b.toNat? with
     | some n, some b =>
